@@ -1,0 +1,49 @@
+//go:build verif
+
+package fp
+
+import (
+	satomic "sync/atomic"
+
+	"github.com/csgura/fp/internal/atomic"
+)
+
+// Verification hooks (build tag verif). They add observability and scheduling
+// control for runtime monitors and change no behaviour unless a hook is installed.
+
+// VerifSetAtomicHook installs f to be called before every atomic step
+// (Get/Load/Store/CompareAndSwap) performed on a Promise's state.
+func VerifSetAtomicHook(f func(op string)) {
+	atomic.VerifSetHook(f)
+}
+
+var verifSpawnFn satomic.Pointer[func(task func())]
+
+// VerifSetSpawn installs f as the function that receives every task the default
+// executors (fp and future package) would otherwise start with a go statement.
+func VerifSetSpawn(f func(task func())) {
+	if f == nil {
+		verifSpawnFn.Store(nil)
+		return
+	}
+	verifSpawnFn.Store(&f)
+}
+
+// VerifSpawn hands runnable to the installed spawn function. It reports false when
+// none is installed, in which case the caller starts the goroutine itself.
+func VerifSpawn(runnable Runnable) bool {
+	if f := verifSpawnFn.Load(); f != nil {
+		(*f)(runnable.Run)
+		return true
+	}
+	return false
+}
+
+func verifSpawn(runnable Runnable) bool {
+	return VerifSpawn(runnable)
+}
+
+// VerifSetMinimal exposes the backing set of s (nil for the zero value).
+func VerifSetMinimal[V any](s Set[V]) SetMinimal[V] {
+	return s.set
+}
